@@ -483,13 +483,13 @@ Definition is_local (l : label) : bool :=
   | _ => false
   end.
 
-Ltac split6 := split; [|split; [|split; [|split; [|split]]]].
+Ltac split6 := split; [|split; [|split; [|split]]].
 
 Lemma Ropen_refl : forall z, Ropen z z.
 Proof. intro; reflexivity. Qed.
 
 Lemma step_local : forall cfg s l s', is_local l = true -> step cfg s l = Some s' ->
-  s_calls s' = s_calls s /\ s_late s' = s_late s /\ s_journal s' = s_journal s /\ s_log s' = s_log s /\
+  s_calls s' = s_calls s /\ s_journal s' = s_journal s /\ s_log s' = s_log s /\
   lrel Rloc (s_pws s) (s_pws s') /\
   (closed s' = false -> closed s = false /\ lrel Ropen (s_pws s) (s_pws s')).
 Proof.
@@ -586,7 +586,7 @@ Definition jr_sorted (j : list attempt) : Prop :=
 Record Inv1 (s : state) : Prop := {
   i1_ok : all_ok (s_pws s);
   i1_open : closed s = false -> all_open (s_pws s);
-  i1_uniq : s_late s = false -> uniq_tp (s_pws s);
+  i1_uniq : uniq_tp (s_pws s);
   i1_jr : jr_ok (s_pws s) (s_journal s);
   i1_sorted : jr_sorted (s_journal s)
 }.
@@ -630,7 +630,7 @@ Proof.
   split; simpl.
   - intros p pw H; destruct p; discriminate.
   - intros _ p pw H; destruct p; discriminate.
-  - intros _ p p' pw pw' H; destruct p; discriminate.
+  - intros p p' pw pw' H; destruct p; discriminate.
   - intros a [].
   - intros i i' a b _ H; destruct i; discriminate.
 Qed.
@@ -639,12 +639,12 @@ Lemma Inv1_step : forall cfg s l s', Inv1 s -> step cfg s l = Some s' -> Inv1 s'
 Proof.
   intros cfg s l s' I H.
   destruct (is_local l) eqn:Hl.
-  { destruct (step_local _ _ _ _ Hl H) as (Ec & El & Ej & Elog & LR & LO). destruct I as [I1 I2 I3 I4 I5].
+  { destruct (step_local _ _ _ _ Hl H) as (Ec & Ej & Elog & LR & LO). destruct I as [I1 I2 I3 I4 I5].
     split.
     - intros q x' Hq. destruct (lrel_bwd _ _ _ _ _ _ LR Hq) as (x & Hx & R). eapply Rloc_ok; eauto.
     - intros Hc q x' Hq. destruct (LO Hc) as [Hc0 LO']. destruct (lrel_bwd _ _ _ _ _ _ LO' Hq) as (x & Hx & R).
       unfold Ropen in R. rewrite R. eapply I2; eauto.
-    - rewrite El. intros HL. eapply uniq_lrel; [|apply I3; auto].
+    - eapply uniq_lrel; [|apply I3; auto].
       eapply lrel_imp; [|exact LR]. intros q x x' Hx R. simpl in R. apply R. eapply I1; eauto.
     - rewrite Ej. eapply jr_ok_fwd; [|exact I4]. intros q x Hx.
       destruct (lrel_fwd _ _ _ _ _ _ LR Hx) as (x' & Hx' & R). exists x'. split; auto.
@@ -656,6 +656,7 @@ Proof.
   - (* Assign *)
     simpl in H. destruct (nth_error (s_calls s) c) as [cl|] eqn:Ec; [|discriminate].
     destruct (c_ph cl) eqn:Ep; try discriminate.
+    destruct (closed s) eqn:Ecl; [inv H; destruct I; split; auto|].
     destruct (assign_all cfg (s_pws s) (s_wg s) (c_msgs cl)) as [[pws wg] refs] eqn:EA. inv H.
     destruct I as [I1 I2 I3 I4 I5].
     assert (P : all_ok pws /\ fwd Rasg (s_pws s) pws /\ (all_open (s_pws s) -> all_open pws) /\
@@ -675,7 +676,7 @@ Proof.
     split; simpl.
     + exact P1.
     + unfold closed; simpl. intros Hc. apply P3. apply I2. exact Hc.
-    + intros HL. apply orb_false_iff in HL. destruct HL as [HL Hc]. apply P4; auto.
+    + apply P4; auto.
     + eapply jr_ok_fwd; [|exact I4]. intros q x Hx. destruct (P2 _ _ Hx) as (x' & Hx' & T & F & S & _).
       exists x'. split; auto. split; auto. unfold fs. rewrite F, S. apply incl_refl.
     + exact I5.
@@ -696,7 +697,7 @@ Proof.
     + intros q x' Hq. destruct (lrel_bwd _ _ _ _ _ _ LR Hq) as (x & Hx & R). eapply Rloc_ok; eauto.
     + intros Hc q x' Hq. destruct (lrel_bwd _ _ _ _ _ _ LO Hq) as (x & Hx & R).
       unfold Ropen in R. rewrite R. eapply I2; eauto.
-    + intros HL. eapply uniq_lrel; [|apply I3; auto].
+    + eapply uniq_lrel; [|apply I3; auto].
       eapply lrel_imp; [|exact LR]. intros q x x' Hx R. simpl in R. apply R. eapply I1; eauto.
     + intros a Ha. apply in_app_or in Ha. destruct Ha as [Ha|[<-|[]]].
       * revert a Ha. change (jr_ok (upd (s_pws s) p pw') (s_journal s)).
@@ -748,7 +749,7 @@ Proof.
       - apply fs_incl_all; auto.
       - congruence. }
     subst. split; congruence.
-  - intros HL Et. eapply (I3 HL); eauto. congruence.
+  - intros Et. eapply I3; eauto. congruence.
 Qed.
 
 (* ------------------------------------------------------------------ calls: ids and order *)
@@ -821,6 +822,25 @@ Lemma NoDup_map_mid : forall A B (f : A -> B) l1 m l2 x, NoDup (map f (l1 ++ m :
 Proof.
   intros A B f l1 m l2 x N Hx E. rewrite map_app in N. simpl in N.
   eapply (NoDup_app_disj _ _ (f m) N); [rewrite <- E; apply in_map; auto|left; auto].
+Qed.
+
+Lemma in_flat_map_upd_nil : forall A B (F : A -> list B) l i x b, F x = [] ->
+  In b (flat_map F (upd l i x)) -> In b (flat_map F l).
+Proof.
+  induction l as [|h t IH]; intros i x b E H; [exact H|]. destruct i as [|i]; simpl in *.
+  - rewrite E in H. simpl in H. apply in_or_app; auto.
+  - apply in_app_or in H. apply in_or_app. destruct H; [auto|right; eauto].
+Qed.
+
+Lemma before_flat_map_upd_nil : forall A B (F : A -> list B) l i x a b, F x = [] ->
+  before (flat_map F (upd l i x)) a b -> before (flat_map F l) a b.
+Proof.
+  induction l as [|h t IH]; intros i x a b E H; [exact H|]. destruct i as [|i]; simpl in *.
+  - rewrite E in H. simpl in H. apply before_app_r. auto.
+  - apply before_app_inv in H. destruct H as [H|[[H1 H2]|H]].
+    + apply before_app_l; auto.
+    + apply before_app_mid; auto. eapply in_flat_map_upd_nil; eauto.
+    + apply before_app_r. eauto.
 Qed.
 
 Definition seqc (cs : list call) : Prop :=
@@ -1043,7 +1063,7 @@ Lemma Inv2_step : forall cfg s l s', Inv1 s -> Inv2 cfg s -> step cfg s l = Some
 Proof.
   intros cfg s l s' J I H.
   destruct (is_local l) eqn:Hl.
-  { destruct (step_local _ _ _ _ Hl H) as (Ec & El & Ej & Elog & LR & LO).
+  { destruct (step_local _ _ _ _ Hl H) as (Ec & Ej & Elog & LR & LO).
     eapply Inv2_same_seq; eauto. apply lrel_Rloc_Rseq; auto. apply J. }
   destruct l; try discriminate.
   - (* Call *)
@@ -1080,6 +1100,24 @@ Proof.
   - (* Assign *)
     simpl in H. destruct (nth_error (s_calls s) c) as [cl|] eqn:Ec; [|discriminate].
     destruct (c_ph cl) eqn:Ep; try discriminate.
+    destruct (closed s) eqn:Ecl.
+    { inv H. destruct I as [I1 I2 I3 I4 I5 I6 I7].
+      set (cl' := mkCall (c_g cl) (c_msgs cl) (c_refs cl) (CReturned (RErr EClosed))).
+      assert (K : forall i x, nth_error (upd (s_calls s) c cl') i = Some x ->
+                  exists x0, nth_error (s_calls s) i = Some x0 /\ c_g x0 = c_g x /\ (returned x0 = true -> returned x = true)).
+      { intros i x Hx. apply nth_error_upd in Hx. destruct Hx as [(-> & -> & _)|[_ Hx]]; eauto. }
+      split; simpl; fold cl'; auto.
+      + unfold used_ids. erewrite flat_map_upd; eauto.
+      + intros c1 c2 cl1 cl2 L H1 H2 E.
+        destruct (K _ _ H1) as (y1 & Y1 & G1 & R1). destruct (K _ _ H2) as (y2 & Y2 & G2 & R2).
+        apply R1. eapply I2; eauto. congruence.
+      + intros q x Hx. destruct (I3 _ _ Hx) as (c2 & cl2 & E2 & In2 & Ph2 & R2).
+        exists c2, cl2. rewrite nth_error_upd_neq; auto. intros ->. congruence.
+      + intros g q m1 m2 B. eapply I6. unfold submitted in *.
+        eapply before_flat_map_upd_nil; [|exact B]. unfold cl'. simpl. rewrite andb_false_r. reflexivity.
+      + intros c0 cl0 m H1 H2 H3 H4. apply nth_error_upd in H1. destruct H1 as [(-> & -> & _)|[N0 H1]].
+        * discriminate.
+        * eapply I7; eauto. }
     destruct (assign_all cfg (s_pws s) (s_wg s) (c_msgs cl)) as [[pws wg] refs] eqn:EA. inv H.
     destruct I as [I1 I2 I3 I4 I5 I6 I7].
     assert (P : Q cfg (s_calls s) c (c_msgs cl) pws /\ fwd Rasg (s_pws s) pws).
@@ -1192,11 +1230,11 @@ Lemma log_inv_runs : forall cfg ls s, runs cfg ls s -> s_log s = jlog (s_journal
 Proof.
   intros cfg ls s H. eapply (runs_inv cfg (fun s => s_log s = jlog (s_journal s))); eauto.
   intros s0 l s1 I St. destruct (is_local l) eqn:Hl.
-  { destruct (step_local _ _ _ _ Hl St) as (_ & _ & Ej & Elog & _). congruence. }
+  { destruct (step_local _ _ _ _ Hl St) as (_ & Ej & Elog & _). congruence. }
   destruct l; try discriminate.
   - apply step_call in St. destruct St as (wg & ph & -> & _). exact I.
   - simpl in St. destruct (nth_error (s_calls s0) c) as [cl|]; [|discriminate].
-    destruct (c_ph cl); try discriminate.
+    destruct (c_ph cl); try discriminate. destruct (closed s0); [inv St; exact I|].
     destruct (assign_all cfg (s_pws s0) (s_wg s0) (c_msgs cl)) as [[pws wg] refs]. inv St. exact I.
   - simpl in St. destruct (nth_error (s_pws s0) p) as [pw|]; [|discriminate].
     destruct (pw_snd pw) as [[b n [| |e]]|]; inv St. simpl. rewrite I. unfold jlog.
@@ -1239,7 +1277,7 @@ Qed.
 
 Lemma C07_order_proof : stmt_C07_order.
 Proof.
-  intros cfg ls s _ Hr HL g tp m1 m2 (l1 & l2 & l3 & Hsub) Hno i j Hi Hj.
+  intros cfg ls s _ Hr g tp m1 m2 (l1 & l2 & l3 & Hsub) Hno i j Hi Hj.
   destruct (Inv12_runs _ _ _ Hr) as [J I].
   assert (B : before (submitted (s_calls s) g) m1 m2).
   { eapply before_filter. rewrite Hsub. apply before_split. }
